@@ -10,6 +10,8 @@ func corpusEnums() []*modSpec {
 		return m
 	}
 	return []*modSpec{
+		{Name: "enum-in-the-root-package-of-the-module", ModPath: "example.com/shop", Target: "api/api.go",
+			Files: []modFile{{"api/api.go", "package api\n\nimport \"example.com/shop\"\n\ntype Order struct {\n\tColor shop.Color\n\tUnit shop.Unit\n\tN int\n}\n"}, {"shop.go", "package shop\n\ntype Color int\n\nconst (\n\tRed Color = iota // the red\n\tGreen\n\tBlue\n)\n\ntype Unit string\n\nconst (\n\tKg Unit = \"kg\"\n\tPiece Unit = \"piece\"\n)\n"}}},
 		mk("enum-dup-values", "package models\n\ntype Color uint8\n\nconst (\n\tRed Color = 0\n\tGreen Color = 1\n\tBlue Color = 1\n)\n\ntype S struct{ C Color }\n"),
 		mk("enum-dup-and-gap", "package models\n\ntype Level int\n\nconst (\n\tLow Level = 0\n\tDefault Level = 0\n\tHigh Level = 2\n)\n\ntype Mode uint8\n\nconst (\n\tM0 Mode = 0\n\tM1 Mode = 1\n\tM1b Mode = 1\n\tM4 Mode = 4\n\tM4b Mode = 4\n)\n\ntype Gap int\n\nconst (\n\tG0 Gap = 0\n\tG2 Gap = 2\n)\n\ntype S struct {\n\tL Level\n\tM Mode\n\tG Gap\n}\n"),
 		mk("enum-same-package-name", "package models\n\nimport (\n\tv1 \"example.com/org/models/v1/status\"\n\tv2 \"example.com/org/models/v2/status\"\n)\n\ntype S struct {\n\tA v1.Status\n\tB v2.Status\n\tC v2.Level\n}\n",
@@ -44,6 +46,7 @@ func corpusUnions() []*modSpec {
 		mk("union-pointer-receiver", "package models\n\ntype U interface{ isU() }\n\ntype A struct{ X int }\ntype P struct{ Y int }\n\nfunc (A) isU() {}\nfunc (*P) isU() {}\n\ntype S struct{ V U; Q P }\n"),
 		mk("union-two-unions-one-member", "package models\n\ntype U1 interface{ is1() }\ntype U2 interface{ is2() }\n\ntype A struct{ X int }\ntype B struct{ Y int }\n\nfunc (A) is1() {}\nfunc (A) is2() {}\nfunc (B) is2() {}\n\ntype S struct {\n\tV1 U1\n\tV2 U2\n}\n\ntype T struct{ Only U1 }\n"),
 		sameNamePackages(),
+		mk("union-members-in-sibling-file", "package models\n\ntype Shape interface{ isShape() }\n\ntype Local struct{ L int }\n\nfunc (Local) isShape() {}\n\ntype Holder struct {\n\tS Shape\n\tAll []Shape\n}\n", modFile{"members.go", "package models\n\ntype Circle struct{ R int }\ntype Square struct{ S int }\n\nfunc (Circle) isShape() {}\nfunc (Square) isShape() {}\n"}),
 		mk("union-not-analysed", "package models\n\ntype U1 interface{ is1() }\ntype U2 interface{ is2() }\n\ntype A struct{ X int }\n\nfunc (A) is1() {}\nfunc (A) is2() {}\n\ntype S struct{ V1 U1 }\n", modFile{"other.go", "package models\n\ntype Hidden struct{ V U2 }\n"}),
 		mk("union-through-alias", "package models\n\ntype U interface{ isU() }\n\ntype A struct{ X int }\n\nfunc (A) isU() {}\n\ntype AliasA = A\n\ntype S struct {\n\tDirect A\n\tVia AliasA\n\tV U\n}\n"),
 		mk("union-alias-first", "package models\n\ntype U interface{ isU() }\n\ntype A struct{ X int }\n\nfunc (A) isU() {}\n\ntype AliasA = A\n\ntype S struct {\n\tVia AliasA\n\tDirect A\n\tV U\n}\n"),
@@ -95,6 +98,9 @@ func corpusFields() []*modSpec {
 		mk("tags-embedded-tagged", "package models\n\ntype Inner struct{ A int }\n\ntype T struct {\n\tInner `json:\"inner\"`\n\tB int\n}\n\ntype Table struct {\n\tId int64\n\tData T\n}\n"),
 		mk("tags-embedded-empty-name", "package models\n\ntype Base struct {\n\tID int64\n\tName string `json:\"name\"`\n}\n\ntype Other struct{ Z int }\n\ntype Third struct{ W int }\n\ntype T struct {\n\tBase `json:\",omitempty\"`\n\tOther `json:\"\"`\n\tThird `json:\",\"`\n\tExtra string\n}\n\ntype Table struct {\n\tId int64\n\tData T\n}\n"),
 		mk("tags-embedded-conflict", "package models\n\ntype X struct{ A int; B int }\ntype Y struct{ A int; C int }\n\ntype T struct {\n\tX\n\tY\n}\n\ntype Table struct {\n\tId int64\n\tData T\n}\n"),
+		mk("tags-opaque-with-json-name", "package models\n\ntype Payload struct{ A int }\n\ntype Event struct {\n\tID int `json:\"id\"`\n\tMeta Payload `json:\"meta_data\" gomacro-opaque:\"typescript\"`\n\tRaw Payload `gomacro-opaque:\"typescript\"`\n\tBoth Payload `json:\"both,omitempty\" gomacro-opaque:\"dart, typescript\"`\n\tComment string\n}\n\ntype Table struct {\n\tId int64\n\tData Event\n}\n"),
+		mk("tags-all-fields-ignored", "package models\n\ntype Empty struct{}\n\ntype Marker struct {\n\ta int\n\tB int `json:\"-\"`\n\tC string `gomacro:\"ignore\"`\n}\n\ntype T struct {\n\tFlags []Marker\n\tOne Marker\n\tE Empty\n\tN int\n}\n\ntype Table struct {\n\tId int64\n\tData T\n}\n"),
+		mk("tags-empty-struct-last", "package models\n\ntype Table struct {\n\tId int64\n\tData T\n}\n\ntype T struct {\n\tFlags []Marker\n\tOne Marker\n\tN int\n}\n\ntype Marker struct {\n}\n"),
 		mk("tags-opaque", "package models\n\ntype R struct{ Children []R }\n\ntype T struct {\n\tF1 R `gomacro-opaque:\"dart\"`\n\tF2 R `gomacro-opaque:\"dart, typescript\"`\n\tF3 R `gomacro-opaque:\" typescript\"`\n\tF4 int `json:\"f4\" gomacro-opaque:\"typescript\"`\n}\n\ntype Table struct {\n\tId int64\n\tData T\n}\n"),
 		mk("tags-invalid-name", "package models\n\ntype T struct {\n\tA int `json:\"a\\\\b\"`\n\tB int `json:\"ok\"`\n}\n"),
 	}
